@@ -276,6 +276,57 @@ fn c01_one_shot_ci_is_incremental_ci_concrete() {
     kani::cover!(true);
 }
 
+// ---- C09 (concrete, exactly representable data 1, 2, 4, 8 -- every partial sum and square is exact in f64, so any grouping
+// must give the very same values): extend on a NON-EMPTY state, merges of partial states with + and +=, the empty state on
+// either side, and the same through the Harmonic wrapper.  Twin, on the compiled crate, of the Verus view-homomorphism
+// obligations Arithmetic::{extend, add, add_assign} (which hold for every state and every length).
+pub(crate) fn arith_values_f64(a: &Arithmetic<f64>) -> (u64, u64, usize) { (a.sum.value().to_bits(), a.sum_sq.value().to_bits(), a.count) }
+pub(crate) fn arith_values_f32(a: &Arithmetic<f32>) -> (u32, u32, usize) { (a.sum.value().to_bits(), a.sum_sq.value().to_bits(), a.count) }
+#[kani::proof]
+#[kani::unwind(6)]
+fn c09_arithmetic_chunked_and_merged_concrete() {
+    let data = [1.0f64, 2.0, 4.0, 8.0];
+    let mut s = Arithmetic::<f64>::new();
+    let mut i = 0;
+    while i < 4 { assert!(s.append(data[i]).is_ok()); i += 1; }
+    let want = arith_values_f64(&s);
+    assert!(want == (15.0f64.to_bits(), 85.0f64.to_bits(), 4));
+    // extend continues a non-empty state
+    let mut e = Arithmetic::<f64>::new();
+    assert!(e.append(1.0).is_ok());
+    assert!(<Arithmetic<f64> as StatisticsOps<f64>>::extend(&mut e, &vec![2.0f64, 4.0, 8.0]).is_ok());
+    assert!(arith_values_f64(&e) == want, "extend on a non-empty state");
+    // merges of partial states, any grouping, empty states included
+    let lo = <Arithmetic<f64> as StatisticsOps<f64>>::from_iter(&vec![1.0f64, 2.0]);
+    let hi = <Arithmetic<f64> as StatisticsOps<f64>>::from_iter(&vec![4.0f64, 8.0]);
+    let one = <Arithmetic<f64> as StatisticsOps<f64>>::from_iter(&vec![8.0f64]);
+    let three = <Arithmetic<f64> as StatisticsOps<f64>>::from_iter(&vec![1.0f64, 2.0, 4.0]);
+    match (lo, hi, one, three) {
+        (Ok(lo), Ok(hi), Ok(one), Ok(three)) => {
+            assert!(arith_values_f64(&(lo + hi)) == want && arith_values_f64(&(hi + lo)) == want, "merge of two partial states");
+            assert!(arith_values_f64(&(three + one)) == want && arith_values_f64(&(one + three)) == want, "merge with a one-observation state");
+            let mut m = lo;
+            m += hi;
+            assert!(arith_values_f64(&m) == want, "+= of a partial state");
+            let z = Arithmetic::<f64>::new();
+            assert!(arith_values_f64(&(s + z)) == want && arith_values_f64(&(z + s)) == want, "the empty state is neutral");
+            let mut n = s;
+            n += z;
+            assert!(arith_values_f64(&n) == want, "+= of the empty state");
+            // the Harmonic wrapper merges its reciprocal-space state the same way
+            let (h1, h2) = (Harmonic { recip_space: lo }, Harmonic { recip_space: hi });
+            assert!(arith_values_f64(&(h1 + h2).recip_space) == want);
+            let mut h3 = h1;
+            h3 += h2;
+            assert!(arith_values_f64(&h3.recip_space) == want);
+            let (g1, g2) = (Geometric { log_space: lo }, Geometric { log_space: hi });
+            assert!(arith_values_f64(&(g1 + g2).log_space) == want);
+        }
+        _ => assert!(false, "from_iter rejected finite data"),
+    }
+    kani::cover!(true);
+}
+
 // ---- C09: the count component of every merge is exact at full usize width (IEEE sums are C08 territory)
 #[kani::proof]
 fn c09_arithmetic_merge_counts() {
